@@ -140,6 +140,31 @@ func convertSchema(schema *schema_j5pb.Field) (*Schema, error) {
 			return nil, err
 		}
 
+	// The remaining scalar types are all JSON strings on the wire.
+	case *schema_j5pb.Field_Key:
+		item := &StringItem{}
+		switch t.Key.GetFormat().GetType().(type) {
+		case *schema_j5pb.KeyFormat_Uuid:
+			item.Format = Value("uuid")
+		case *schema_j5pb.KeyFormat_Id62:
+			item.Format = Value("id62")
+		case *schema_j5pb.KeyFormat_Custom_:
+			item.Pattern = Value(t.Key.Format.GetCustom().Pattern)
+		}
+		out.SchemaItem.Type = item
+
+	case *schema_j5pb.Field_Bytes:
+		out.SchemaItem.Type = &StringItem{Format: Value("byte")}
+
+	case *schema_j5pb.Field_Date:
+		out.SchemaItem.Type = &StringItem{Format: Value("date")}
+
+	case *schema_j5pb.Field_Timestamp:
+		out.SchemaItem.Type = &StringItem{Format: Value("date-time")}
+
+	case *schema_j5pb.Field_Decimal:
+		out.SchemaItem.Type = &StringItem{Format: Value("decimal")}
+
 	default:
 		return nil, fmt.Errorf("unknown schema type for swagger %T", t)
 	}
